@@ -99,14 +99,21 @@ def check_analytic(rep, prog, m):
     # cached_dbeta
     cd = prog.func(SM, 'cached_dbeta')
     rep.saw_function(rel + ':cached_dbeta')
-    lp = [n for n in own_nodes(cd) if isinstance(n, ast.For)]
+    # row d of the two tables, whichever loop(s) fill them: summaries of the filling loops; the pair stored in the memo resolves to
+    # (table with shift 1, table with shift 2)
+    from sa.extract import loop_fills
+    fills = loop_fills(cd)
+    sing0 = single_assignments(cd)
     ok = False
-    if lp:
-        body = lp[0].body
-        iv = lp[0].target.id
-        txt = [ast.unparse(s) for s in body]
-        ok = ast.unparse(lp[0].iter) == 'range(0, nx + 1)' and txt == ['b = betainc(%s + 1, nx - %s + 1, xx)' % (iv, iv), 'dbeta1[%s] = b[1:] - b[:-1]' % iv,
-                                                                     'b = betainc(%s + 2, nx - %s + 1, xx)' % (iv, iv), 'dbeta2[%s] = b[1:] - b[:-1]' % iv]
+    stores = [n for n in own_nodes(cd) if isinstance(n, ast.Assign) and isinstance(n.targets[0], ast.Subscript) and ast.unparse(n.targets[0].value) == '_dbeta_cache']
+    if len(stores) == 1:
+        pair = stores[0].value
+        for _ in range(3):
+            if isinstance(pair, ast.Name) and pair.id in sing0:
+                pair = sing0[pair.id]
+        if isinstance(pair, ast.Tuple) and len(pair.elts) == 2 and all(isinstance(x, ast.Name) for x in pair.elts):
+            want = [[('0', 'nx + 1', 'betainc(_i + %d, nx - _i + 1, xx)[1:] - betainc(_i + %d, nx - _i + 1, xx)[:-1]' % (k, k))] for k in (1, 2)]
+            ok = [fills.get(x.id) for x in pair.elts] == want
     rep.ob('R-ALG', 'cached_dbeta', ok, 'dbeta1[d] = Delta I(d+1, n-d+1), dbeta2[d] = Delta I(d+2, n-d+1) for d = 0..n', rel, cd.lineno, what='incomplete-beta differences with the arguments of the closed-form integrals')
     clamp = [n for n in own_nodes(cd) if isinstance(n, ast.Assign) and ast.unparse(n.targets[0]) == 'xx']
     rep.ob('R-TPL', 'cached_dbeta clamp', bool(clamp) and ast.unparse(clamp[0].value) == 'numpy.minimum(numpy.maximum(xx, 0), 1.0)', 'grid clamped to [0,1] before betainc', rel, cd.lineno, what='grid clamp present')
